@@ -70,7 +70,7 @@ def run(tier, seed):
         wm = True
     except (ImportError, AttributeError):
         wm = False
-    orders = [4, 6] if tier == "quick" else [4, 5, 6, 8, 10]
+    orders = [4, 5, 6, 8, 10]
     for N in orders:
         moments_bias(pr, N)
     meta = {
